@@ -56,6 +56,8 @@ type c07Cell struct {
 	// logged: the server's transport is wrapped in the SDK's LoggingTransport (which must not hide
 	// what the wrapped transport says about the versions it can serve)
 	logged bool
+	// opts, if set, is the options value handed to Connect (shared between several Connects)
+	opts *ClientSessionOptions
 }
 
 func (c c07Cell) String() string {
@@ -162,7 +164,11 @@ func c07RunOn(s *Server, c c07Cell) (obs, sig, msg string) {
 	client := NewClient(&Implementation{Name: "cli", Version: "1"}, &ClientOptions{Logger: quietLogger})
 	cctx, cancel := context.WithTimeout(ctx, time.Minute)
 	defer cancel()
-	cs, err := client.Connect(cctx, clientT, &ClientSessionOptions{ProtocolVersion: c.requested})
+	copts := c.opts // one options value may serve several Connects (it is configuration, not state)
+	if copts == nil {
+		copts = &ClientSessionOptions{ProtocolVersion: c.requested}
+	}
+	cs, err := client.Connect(cctx, clientT, copts)
 	requested := c.requested
 	if requested == "" {
 		requested = latestProtocolVersion
@@ -418,7 +424,7 @@ func TestVerifC07(t *testing.T) {
 		{transport: "stateful", advertised: "all"}, {transport: "inmem", advertised: "legacy"}, {transport: "stateless", advertised: "all", jsonResp: true, store: true}}
 	for _, a := range kinds {
 		for _, b := range kinds {
-			for _, r := range []string{"", "2025-06-18"} {
+			for ri, r := range []string{"", "2025-06-18", "", "2026-07-28"} {
 				idx, mine := shared.Next()
 				if !mine {
 					continue
@@ -426,6 +432,12 @@ func TestVerifC07(t *testing.T) {
 				a2, b2 := a, b
 				a2.requested, b2.requested = r, r
 				desc := "first " + a2.String() + " then " + b2.String()
+				if ri >= 2 {
+					// both Connects are given the same *ClientSessionOptions
+					o := &ClientSessionOptions{ProtocolVersion: r}
+					a2.opts, b2.opts = o, o
+					desc += " (one ClientSessionOptions value for both)"
+				}
 				run(func() (string, string, string) {
 					s := c07NewServer()
 					defer func() {
